@@ -1,1 +1,501 @@
 //! Verification hooks: exec (cfg `rten_verif`).
+//!
+//! Re-exposes the crate-private graph executor (`Graph::run`, `Graph::partial_run`, the
+//! `Operator` trait, the real `If` / `Loop` control-flow operators) through a plain-data API,
+//! so that the external correspondence harness in `/verif/harness/exec` can run arbitrary
+//! graphs of *test operators* under different execution strategies.
+//!
+//! A test operator computes, for every output `k` and element `j`, an integer hash of
+//! `(uid, k, j, input values)`; its `in_place_inputs`, `is_commutative`, `is_deterministic`
+//! and the behaviour of `run_in_place` (overwrite the taken buffer and return it, or allocate
+//! a new output and hand the taken buffer back to the pool) are table-driven. Every call is
+//! appended to a shared trace so that the harness can see which inputs the executor passed
+//! by value.
+use std::sync::atomic::{AtomicI32, Ordering};
+use std::sync::{Arc, Mutex};
+
+use rten_base::bit_set::BitSet;
+use rten_tensor::Tensor;
+use rten_tensor::prelude::*;
+
+use crate::buffer_pool::BufferPool;
+use crate::graph::{Graph, Node, NodeId, RunError, RunOptions};
+use crate::infer_shapes::InferShapes;
+use crate::operator::{
+    InPlaceInputs, OpError, OpRunContext, Operator, OutputList, OutputTypeList,
+    OutputTypesContext,
+};
+use crate::ops::{If, Loop};
+use crate::threading::ThreadPool;
+use crate::value::{Value, ValueOrView, ValueView};
+
+/// Modulus of the hash. Outputs are in `0..HASH_M`, which fits in an `i32`.
+pub const HASH_M: i64 = 1_000_000_007;
+const HASH_A: i64 = 1_000_003;
+const HASH_ABSENT: i64 = 777_777;
+
+fn norm(x: i64) -> i64 {
+    x.rem_euclid(HASH_M)
+}
+
+/// `mix(h, x) = (h * A + (x mod M) + 12345) mod M`
+pub fn mix(h: i64, x: i64) -> i64 {
+    (h * HASH_A + norm(x) + 12345).rem_euclid(HASH_M)
+}
+
+/// Behaviour table of one test operator.
+#[derive(Clone, Debug)]
+pub struct TestOpSpec {
+    /// Identity mixed into the hash.
+    pub uid: u32,
+    /// Number of outputs produced.
+    pub n_outputs: usize,
+    /// Positions reported by `in_place_inputs`.
+    pub in_place: Vec<u32>,
+    /// `is_commutative`. The hash of a commutative operator is symmetric in its inputs.
+    pub commutative: bool,
+    /// `run_in_place` overwrites the first taken buffer and returns it as output 0 (when the
+    /// lengths match); otherwise it allocates new outputs and returns taken buffers to the pool.
+    pub mutating: bool,
+    /// `is_deterministic`. A non-deterministic operator mixes a fresh global counter in.
+    pub deterministic: bool,
+    /// Fixed output length, or `None` for the length of the longest input (1 without inputs).
+    pub out_len: Option<u32>,
+    /// Reduce every output element modulo this value (for conditions / trip counts).
+    pub modulus: Option<i32>,
+}
+
+/// What an operator node does.
+#[derive(Clone, Debug)]
+pub enum OpKind {
+    Test(TestOpSpec),
+    /// The real `If` operator with the given branches.
+    If(Box<GraphSpec>, Box<GraphSpec>),
+    /// The real `Loop` operator with the given body.
+    Loop(Box<GraphSpec>),
+}
+
+#[derive(Clone, Debug)]
+pub enum NodeSpec {
+    Value { name: String },
+    Constant { name: String, data: Vec<i32> },
+    Op { name: String, kind: OpKind, inputs: Vec<Option<u32>>, outputs: Vec<Option<u32>> },
+}
+
+/// A graph: node `i` of `nodes` receives node ID `i`.
+#[derive(Clone, Debug, Default)]
+pub struct GraphSpec {
+    pub nodes: Vec<NodeSpec>,
+    pub inputs: Vec<u32>,
+    pub outputs: Vec<u32>,
+    pub captures: Vec<u32>,
+}
+
+/// One call of a test operator, as seen by the operator.
+#[derive(Clone, Debug, PartialEq, Eq)]
+pub struct TraceEntry {
+    pub uid: u32,
+    /// Positions of the inputs that were passed by value (`run_in_place`); empty for `run`.
+    pub in_place: Vec<u32>,
+    /// The first taken buffer was overwritten and returned as output 0.
+    pub reused: bool,
+}
+
+type Trace = Arc<Mutex<Vec<TraceEntry>>>;
+
+static COUNTER: AtomicI32 = AtomicI32::new(1);
+
+/// Reset the counter used by non-deterministic test operators.
+pub fn reset_counter(value: i32) {
+    COUNTER.store(value, Ordering::SeqCst);
+}
+
+struct TestOp {
+    spec: TestOpSpec,
+    never_in_place: bool,
+    trace: Trace,
+}
+
+impl std::fmt::Debug for TestOp {
+    fn fmt(&self, f: &mut std::fmt::Formatter<'_>) -> std::fmt::Result {
+        write!(f, "VerifExecOp({})", self.spec.uid)
+    }
+}
+
+fn view_data(view: &ValueView) -> Vec<i32> {
+    match view {
+        ValueView::Int32Tensor(t) => t.iter().copied().collect(),
+        ValueView::FloatTensor(t) => t.iter().map(|x| *x as i32).collect(),
+        ValueView::Int8Tensor(t) => t.iter().map(|x| *x as i32).collect(),
+        ValueView::UInt8Tensor(t) => t.iter().map(|x| *x as i32).collect(),
+        ValueView::Sequence(_) => Vec::new(),
+    }
+}
+
+/// The reference semantics of a test operator: `args[p]` is the flattened content of input `p`
+/// (or `None`), `nonce` the counter value for non-deterministic operators (0 otherwise).
+pub fn test_op_eval(spec: &TestOpSpec, args: &[Option<Vec<i32>>], nonce: i32) -> Vec<Vec<i32>> {
+    let max_len = args.iter().flatten().map(|a| a.len()).max().unwrap_or(1);
+    let len = spec.out_len.map(|n| n as usize).unwrap_or(max_len);
+    (0..spec.n_outputs)
+        .map(|k| {
+            (0..len)
+                .map(|j| {
+                    let seed = mix(mix(mix(17, spec.uid as i64), k as i64), nonce as i64);
+                    let at = |a: &Vec<i32>| -> i64 {
+                        if a.is_empty() { HASH_ABSENT } else { a[j % a.len()] as i64 }
+                    };
+                    let h = if spec.commutative {
+                        let mut acc = seed;
+                        for a in args.iter().flatten() {
+                            acc = norm(acc + mix(seed, at(a)));
+                        }
+                        mix(acc, j as i64)
+                    } else {
+                        let mut h = mix(seed, j as i64);
+                        for a in args.iter() {
+                            h = match a {
+                                Some(a) => mix(mix(h, 1), at(a)),
+                                None => mix(mix(h, 2), HASH_ABSENT),
+                            };
+                        }
+                        h
+                    };
+                    let h = match spec.modulus {
+                        Some(m) if m > 0 => h % (m as i64),
+                        _ => h,
+                    };
+                    h as i32
+                })
+                .collect()
+        })
+        .collect()
+}
+
+impl TestOp {
+    fn nonce(&self) -> i32 {
+        if self.spec.deterministic {
+            0
+        } else {
+            COUNTER.fetch_add(1, Ordering::SeqCst)
+        }
+    }
+
+    fn alloc_output(pool: &BufferPool, data: &[i32]) -> Value {
+        let mut buf: Vec<i32> = pool.alloc(data.len());
+        buf.extend_from_slice(data);
+        Tensor::from_data(&[data.len()], buf).into()
+    }
+}
+
+impl Operator for TestOp {
+    fn name(&self) -> &str {
+        "VerifExecOp"
+    }
+
+    fn max_inputs(&self) -> Option<usize> {
+        None
+    }
+
+    fn max_outputs(&self) -> Option<usize> {
+        None
+    }
+
+    fn output_types(&self, _ctx: &OutputTypesContext) -> Option<OutputTypeList> {
+        None
+    }
+
+    fn in_place_inputs(&self) -> BitSet<u16> {
+        if self.never_in_place {
+            BitSet::new()
+        } else {
+            BitSet::from_indices(self.spec.in_place.iter().copied().filter(|i| *i < 16))
+        }
+    }
+
+    fn is_commutative(&self) -> bool {
+        self.spec.commutative
+    }
+
+    fn is_deterministic(&self) -> bool {
+        self.spec.deterministic
+    }
+
+    fn run(&self, ctx: &OpRunContext) -> Result<OutputList, OpError> {
+        let args: Vec<Option<Vec<i32>>> =
+            ctx.inputs().iter().map(|v| v.map(|v| view_data(&v))).collect();
+        let outs = test_op_eval(&self.spec, &args, self.nonce());
+        self.trace.lock().unwrap().push(TraceEntry {
+            uid: self.spec.uid,
+            in_place: Vec::new(),
+            reused: false,
+        });
+        Ok(outs.iter().map(|o| Self::alloc_output(ctx.pool(), o)).collect())
+    }
+
+    fn run_in_place(
+        &self,
+        in_place: InPlaceInputs,
+        ctx: &OpRunContext,
+    ) -> Result<OutputList, OpError> {
+        let mut args: Vec<Option<Vec<i32>>> =
+            ctx.inputs().iter().map(|v| v.map(|v| view_data(&v))).collect();
+        let mut taken: Vec<(usize, Value)> = in_place.into_iter().collect();
+        for (pos, value) in &taken {
+            if *pos >= args.len() {
+                args.resize(*pos + 1, None);
+            }
+            args[*pos] = Some(view_data(&value.as_view()));
+        }
+        let outs = test_op_eval(&self.spec, &args, self.nonce());
+        let positions: Vec<u32> = taken.iter().map(|(pos, _)| *pos as u32).collect();
+
+        let mut results: Vec<Value> = Vec::with_capacity(outs.len());
+        let mut reused = false;
+        if self.spec.mutating && !taken.is_empty() && !outs.is_empty() {
+            let (_, first) = taken.remove(0);
+            match first {
+                Value::Int32Tensor(mut t) if t.len() == outs[0].len() && t.ndim() == 1 => {
+                    // Scribble over the buffer we were given.
+                    for (dst, src) in t.iter_mut().zip(outs[0].iter()) {
+                        *dst = *src;
+                    }
+                    results.push(t.into());
+                    reused = true;
+                }
+                other => {
+                    other.add_to_pool(ctx.pool());
+                }
+            }
+        }
+        for (_, value) in taken {
+            value.add_to_pool(ctx.pool());
+        }
+        for out in outs.iter().skip(results.len()) {
+            results.push(Self::alloc_output(ctx.pool(), out));
+        }
+        self.trace.lock().unwrap().push(TraceEntry {
+            uid: self.spec.uid,
+            in_place: positions,
+            reused,
+        });
+        Ok(results.into_iter().collect())
+    }
+
+    fn as_infer_shapes(&self) -> Option<&dyn InferShapes> {
+        None
+    }
+}
+
+/// Error from a run: `(Debug form of RunErrorKind, message)`.
+pub type ErrInfo = (String, String);
+
+fn err_info(err: RunError) -> ErrInfo {
+    (format!("{:?}", err.kind()), err.to_string())
+}
+
+/// A run input.
+#[derive(Clone, Debug)]
+pub struct RunInput {
+    pub id: u32,
+    pub data: Vec<i32>,
+    /// Pass an owned value instead of a view.
+    pub owned: bool,
+}
+
+/// Strategy of one run.
+#[derive(Clone, Debug, Default)]
+pub struct RunCfg {
+    /// `None`: global thread pool; `Some(n)`: a fresh pool with `n` threads.
+    pub threads: Option<usize>,
+    /// Value of `RTEN_USE_POOL` during the run (`None`: unset).
+    pub use_pool: Option<bool>,
+}
+
+/// `(shape, flattened elements)` of an output.
+pub type OutValue = (Vec<usize>, Vec<i32>);
+
+/// What one run did.
+#[derive(Clone, Debug)]
+pub struct RunReport<T> {
+    pub result: Result<T, ErrInfo>,
+    /// Calls of test operators (including those inside subgraphs), in execution order.
+    pub trace: Vec<TraceEntry>,
+    /// Contents of the values passed as *borrowed* inputs, read back after the run
+    /// (in the order of the borrowed inputs).
+    pub borrowed_after: Vec<Vec<i32>>,
+}
+
+/// A graph of test operators.
+pub struct TestGraph {
+    graph: Graph,
+    trace: Trace,
+}
+
+fn ids(xs: &[u32]) -> Vec<NodeId> {
+    xs.iter().map(|x| NodeId::from_u32(*x)).collect()
+}
+
+fn out_value(value: &Value) -> OutValue {
+    let view = value.as_view();
+    let shape = match &view {
+        ValueView::Int32Tensor(t) => t.shape().to_vec(),
+        ValueView::FloatTensor(t) => t.shape().to_vec(),
+        ValueView::Int8Tensor(t) => t.shape().to_vec(),
+        ValueView::UInt8Tensor(t) => t.shape().to_vec(),
+        ValueView::Sequence(seq) => vec![seq.len()],
+    };
+    (shape, view_data(&view))
+}
+
+fn build_graph(spec: &GraphSpec, never_in_place: bool, trace: &Trace) -> Graph {
+    let mut graph = Graph::new();
+    for (i, node) in spec.nodes.iter().enumerate() {
+        let id = match node {
+            NodeSpec::Value { name } => graph.add_value(Some(name), None, None),
+            NodeSpec::Constant { name, data } => graph.add_constant(
+                Some(name),
+                Tensor::from_data(&[data.len()], data.clone()).into_arc(),
+            ),
+            NodeSpec::Op { name, kind, inputs, outputs } => {
+                let to_ids = |xs: &[Option<u32>]| -> Vec<Option<NodeId>> {
+                    xs.iter().map(|x| x.map(NodeId::from_u32)).collect()
+                };
+                let op: Arc<dyn Operator + Send + Sync> = match kind {
+                    OpKind::Test(spec) => Arc::new(TestOp {
+                        spec: spec.clone(),
+                        never_in_place,
+                        trace: trace.clone(),
+                    }),
+                    OpKind::If(then_branch, else_branch) => Arc::new(If {
+                        then_branch: build_graph(then_branch, never_in_place, trace),
+                        else_branch: build_graph(else_branch, never_in_place, trace),
+                    }),
+                    OpKind::Loop(body) => Arc::new(Loop {
+                        body: build_graph(body, never_in_place, trace),
+                    }),
+                };
+                graph.add_op(Some(name), op, &to_ids(inputs), &to_ids(outputs))
+            }
+        };
+        assert_eq!(id.as_u32(), i as u32);
+    }
+    graph.set_input_ids(&ids(&spec.inputs));
+    graph.set_output_ids(&ids(&spec.outputs));
+    graph.set_captures(&ids(&spec.captures));
+    graph
+}
+
+impl TestGraph {
+    /// Build the graph. With `never_in_place` every test operator reports an empty
+    /// `in_place_inputs` set ("reference mode").
+    pub fn build(spec: &GraphSpec, never_in_place: bool) -> TestGraph {
+        let trace: Trace = Arc::new(Mutex::new(Vec::new()));
+        let graph = build_graph(spec, never_in_place, &trace);
+        TestGraph { graph, trace }
+    }
+
+    fn with_cfg<T>(cfg: &RunCfg, f: impl FnOnce(Option<RunOptions>) -> T) -> T {
+        // Safety: the harness calls this from its only thread that touches the environment;
+        // the executor reads the variable on the calling side of the run.
+        unsafe {
+            match cfg.use_pool {
+                Some(true) => std::env::set_var("RTEN_USE_POOL", "1"),
+                Some(false) => std::env::set_var("RTEN_USE_POOL", "0"),
+                None => std::env::remove_var("RTEN_USE_POOL"),
+            }
+        }
+        let opts = cfg.threads.map(|n| {
+            RunOptions::default().with_thread_pool(Some(Arc::new(ThreadPool::with_num_threads(n))))
+        });
+        f(opts)
+    }
+
+    fn values(inputs: &[RunInput]) -> Vec<Value> {
+        inputs
+            .iter()
+            .map(|inp| Tensor::from_data(&[inp.data.len()], inp.data.clone()).into())
+            .collect()
+    }
+
+    fn run_inputs<'a>(inputs: &[RunInput], values: &'a [Value]) -> Vec<(NodeId, ValueOrView<'a>)> {
+        inputs
+            .iter()
+            .zip(values)
+            .map(|(spec, value)| {
+                let input: ValueOrView = if spec.owned { value.clone().into() } else { value.into() };
+                (NodeId::from_u32(spec.id), input)
+            })
+            .collect()
+    }
+
+    fn borrowed_after(inputs: &[RunInput], values: &[Value]) -> Vec<Vec<i32>> {
+        inputs
+            .iter()
+            .zip(values)
+            .filter(|(spec, _)| !spec.owned)
+            .map(|(_, value)| view_data(&value.as_view()))
+            .collect()
+    }
+
+    /// `Graph::run` (what `Model::run` calls).
+    pub fn run(&self, inputs: &[RunInput], outputs: &[u32], cfg: &RunCfg) -> RunReport<Vec<OutValue>> {
+        self.trace.lock().unwrap().clear();
+        let values = Self::values(inputs);
+        let result = Self::with_cfg(cfg, |opts| {
+            self.graph
+                .run(Self::run_inputs(inputs, &values), &ids(outputs), None, opts)
+                .map(|outs| outs.iter().map(out_value).collect())
+                .map_err(err_info)
+        });
+        RunReport {
+            result,
+            trace: std::mem::take(&mut *self.trace.lock().unwrap()),
+            borrowed_after: Self::borrowed_after(inputs, &values),
+        }
+    }
+
+    /// `Graph::partial_run` (what `Model::partial_run` calls).
+    pub fn partial_run(
+        &self,
+        inputs: &[RunInput],
+        outputs: &[u32],
+        cfg: &RunCfg,
+    ) -> RunReport<Vec<(u32, OutValue)>> {
+        self.trace.lock().unwrap().clear();
+        let values = Self::values(inputs);
+        let result = Self::with_cfg(cfg, |opts| {
+            self.graph
+                .partial_run(Self::run_inputs(inputs, &values), &ids(outputs), opts)
+                .map(|outs| outs.iter().map(|(id, v)| (id.as_u32(), out_value(v))).collect())
+                .map_err(err_info)
+        });
+        RunReport {
+            result,
+            trace: std::mem::take(&mut *self.trace.lock().unwrap()),
+            borrowed_after: Self::borrowed_after(inputs, &values),
+        }
+    }
+
+    /// The execution plan `Graph::run` would use for this request.
+    pub fn plan(&self, inputs: &[u32], outputs: &[u32]) -> Result<Vec<u32>, ErrInfo> {
+        self.graph
+            .execution_plan(&ids(inputs), &ids(outputs), Default::default())
+            .map(|plan| plan.into_iter().map(|id| id.as_u32()).collect())
+            .map_err(err_info)
+    }
+
+    /// Current contents of all constant nodes of the top-level graph, sorted by node ID.
+    pub fn constants(&self) -> Vec<(u32, Vec<i32>)> {
+        let mut out: Vec<(u32, Vec<i32>)> = self
+            .graph
+            .iter()
+            .filter_map(|(id, node)| match node {
+                Node::Constant(c) => Some((id.as_u32(), view_data(&c.as_view()))),
+                _ => None,
+            })
+            .collect();
+        out.sort();
+        out
+    }
+}
